@@ -272,7 +272,69 @@ func (p *Prog) condAt(v ssa.Value, want bool, b *ssa.BasicBlock) bool {
 			}
 		}
 	}
+	// a known boolean phi (a flag) whose value implies the fact: `failed = failed || len(s) == 0 ... if !failed { use s }`
+	if p.flagDepth < 3 {
+		p.flagDepth++
+		defer func() { p.flagDepth-- }()
+		for ft := range fs.in[b] {
+			x, cx := ft.v, ft.val
+			for {
+				u, ok := x.(*ssa.UnOp)
+				if !ok || u.Op != token.NOT {
+					break
+				}
+				x, cx = u.X, !cx
+			}
+			ph, ok := x.(*ssa.Phi)
+			if !ok || ph == v || !ph.Block().Dominates(b) {
+				continue
+			}
+			// the instance of v the fact speaks about must still be the current one at b: v's block dominates the
+			// phi's block, or cannot reach b without passing the phi's block again
+			if vi, isInstr := v.(ssa.Instruction); isInstr && vi.Block() != nil && !vi.Block().Dominates(ph.Block()) && reachesAvoiding(vi.Block(), b, ph.Block()) {
+				continue
+			}
+			if p.phiImplies(ph, cx, v, want) {
+				return true
+			}
+		}
+	}
 	return false
+}
+
+// phiImplies: (ph == c) implies (v == want): on every incoming edge of the boolean phi that can carry the value c,
+// the fact (v == want) holds. Edges whose value is the constant !c, or an SSA value known to be !c on that edge,
+// cannot be the one taken.
+func (p *Prog) phiImplies(ph *ssa.Phi, c bool, v ssa.Value, want bool) bool {
+	if !isBool(ph.Type().Underlying()) {
+		return false
+	}
+	possible := 0
+	for i, e := range ph.Edges {
+		pb := ph.Block().Preds[i]
+		if k, isC := e.(*ssa.Const); isC {
+			if k.Value != nil && (k.Value.String() == "true") != c {
+				continue
+			}
+		} else if p.condAt(e, !c, pb) || edgeFact(pb, ph.Block(), e, !c) {
+			continue
+		}
+		possible++
+		if p.condAt(v, want, pb) || edgeFact(pb, ph.Block(), v, want) {
+			continue
+		}
+		// the edge value is itself a flag that equals c here
+		if ph2, isPhi := e.(*ssa.Phi); isPhi && ph2 != ph && p.flagDepth < 3 {
+			p.flagDepth++
+			ok := p.phiImplies(ph2, c, v, want)
+			p.flagDepth--
+			if ok {
+				continue
+			}
+		}
+		return false
+	}
+	return possible > 0
 }
 
 // nilAt: e is known to be nil at block b (via a dominating comparison with nil).
@@ -1291,4 +1353,23 @@ func (p *Prog) someFactAt(S []fact, b *ssa.BasicBlock) bool {
 		}
 	}
 	return d[b]
+}
+
+// reachesAvoiding: there is a path from `from` to `to` (of length >= 1) that does not pass through `avoid`.
+func reachesAvoiding(from, to, avoid *ssa.BasicBlock) bool {
+	seen := map[*ssa.BasicBlock]bool{}
+	stack := append([]*ssa.BasicBlock(nil), from.Succs...)
+	for len(stack) > 0 {
+		x := stack[len(stack)-1]
+		stack = stack[:len(stack)-1]
+		if x == avoid || seen[x] {
+			continue
+		}
+		seen[x] = true
+		if x == to {
+			return true
+		}
+		stack = append(stack, x.Succs...)
+	}
+	return false
 }
